@@ -158,12 +158,24 @@ pub fn read_layer_toml(path: &Path) -> Result<MToml, String> {
     Ok(MToml { types, metadata: tv.get("metadata").cloned() })
 }
 
-fn meta_eq(a: &Option<TV>, b: &Option<TV>) -> bool {
-    match (a, b) {
+/// Metadata values as a spec reader sees them: an absent `[metadata]` table and an empty one are the same value.
+pub fn meta_eq(a: &Option<TV>, b: &Option<TV>) -> bool {
+    let norm = |v: &Option<TV>| -> Option<TV> {
+        match v {
+            Some(TV::Table(t)) if t.is_empty() => None,
+            other => other.clone(),
+        }
+    };
+    match (norm(a), norm(b)) {
         (None, None) => true,
-        (Some(x), Some(y)) => x.sem_eq(y),
+        (Some(x), Some(y)) => x.sem_eq(&y),
         _ => false,
     }
+}
+
+/// Layer types as a spec reader sees them: an absent `[types]` table means all flags false.
+pub fn types_eq(a: &Option<(bool, bool, bool)>, b: &Option<(bool, bool, bool)>) -> bool {
+    a.unwrap_or((false, false, false)) == b.unwrap_or((false, false, false))
 }
 
 /// Compare one layer on disk with its model. `sigp` = property prefix for signatures ("C01").
@@ -230,7 +242,7 @@ pub fn compare_layer(sigp: &str, layers_dir: &Path, name: &str, l: &MLayer) -> C
         (Some(_), false) => return Err(Fail::new(format!("{sigp}:layer-toml-missing"), format!("layer {name:?}"))),
         (Some(t), true) => {
             let got = read_layer_toml(&toml_path).map_err(|e| Fail::new(format!("{sigp}:layer-toml-unreadable"), e))?;
-            ensure!(got.types == t.types, format!("{sigp}:layer-types-differ"), "layer {name:?}: types (build,launch,cache) on disk {:?}, expected {:?}", got.types, t.types);
+            ensure!(types_eq(&got.types, &t.types), format!("{sigp}:layer-types-differ"), "layer {name:?}: types (build,launch,cache) on disk {:?}, expected {:?}", got.types, t.types);
             if !meta_eq(&got.metadata, &t.metadata) {
                 let sig = if t.metadata.is_none() { format!("{sigp}:empty-layer-keeps-metadata") } else { format!("{sigp}:layer-metadata-differs") };
                 return Err(Fail::new(sig, format!("layer {name:?}: metadata on disk {:?}, expected {:?}", got.metadata, t.metadata)));
@@ -281,6 +293,24 @@ pub fn compare_disk(sigp: &str, layers_dir: &Path, model: &Model, names: &[&str]
         }
     }
     Ok(())
+}
+
+/// After a callback returned Err the statement does not fix what the layer looks like (unchanged? migrated metadata
+/// already written? an empty directory already created?). If the disk does not match the model's guess, adopt the
+/// first of the plausible `alternatives` for that layer that does; if none matches the model stays as it is and the
+/// following comparison reports the difference.
+pub fn settle_after_error(layers_dir: &Path, model: &mut Model, names: &[&str], lname: &str, alternatives: Vec<MLayer>) {
+    if compare_disk("probe", layers_dir, model, names).is_ok() {
+        return;
+    }
+    let guess = model.layers.get(lname).cloned().unwrap_or_default();
+    for alt in alternatives {
+        model.layers.insert(lname.to_string(), alt);
+        if compare_disk("probe", layers_dir, model, names).is_ok() {
+            return;
+        }
+    }
+    model.layers.insert(lname.to_string(), guess);
 }
 
 /// raw bytes of everything that belongs to the layers other than `except` (for "other layers untouched")
